@@ -38,6 +38,7 @@ type vBuilt struct {
 	auxs    []int
 	edges   [][2]int // implementation graph edges over model ids
 	byIdx   map[int]*vComp
+	kinds   [][2]int // (model id, Go type of the node: 0 receiver 1 processor 2 exporter 3 connector 4 capabilities 5 fanOut)
 	problem string
 }
 
@@ -63,13 +64,19 @@ func vBuildGraph(t vTopo) *vBuilt {
 	// name every node of the implementation's graph
 	nodeKey := map[int64]string{}
 	isAux := map[string]bool{}
+	kindOf := map[string]int{}
 	it := g.componentGraph.Nodes()
 	for it.Next() {
 		var k string
+		kc := 5
+		// exactly the test StartAll / ShutdownAll apply: is the node a component.Component?
+		_, isComp := it.Node().(component.Component)
 		switch n := it.Node().(type) {
 		case *receiverNode:
+			kc = 0
 			k = "r|" + n.pipelineType.String() + "|" + n.componentID.String()
 		case *processorNode:
+			kc = 1
 			k = "p|" + n.pipelineID.String() + "|" + n.componentID.String()
 			if c, ok := n.Component.(*vComp); ok {
 				c.key = k
@@ -77,25 +84,29 @@ func vBuildGraph(t vTopo) *vBuilt {
 				b.problem = "processor node does not hold the instrumented component"
 			}
 		case *exporterNode:
+			kc = 2
 			k = "e|" + n.pipelineType.String() + "|" + n.componentID.String()
 		case *connectorNode:
+			kc = 3
 			k = "c|" + n.exprPipelineType.String() + "|" + n.rcvrPipelineType.String() + "|" + n.componentID.String()
 		case *capabilitiesNode:
+			kc = 4
 			k = "a|cap|" + n.pipelineID.String()
-			isAux[k] = true
 		case *fanOutNode:
+			kc = 5
 			k = "a|fan|" + n.pipelineID.String()
-			isAux[k] = true
 		default:
 			k = fmt.Sprintf("?|%T|%d", n, n.ID())
-			isAux[k] = true
 		}
+		isAux[k] = !isComp
+		kindOf[k] = kc
 		nodeKey[it.Node().ID()] = k
 		b.keys = append(b.keys, k)
 	}
 	sort.Strings(b.keys)
 	for i, k := range b.keys {
 		b.idOf[k] = i
+		b.kinds = append(b.kinds, [2]int{i, kindOf[k]})
 		if isAux[k] {
 			b.auxs = append(b.auxs, i)
 		} else {
@@ -225,7 +236,7 @@ func TestVerifC10Graph(t *testing.T) {
 				b.w.ret = map[[2]int]bool{}
 			}
 			c := &vCase{kind: 0, comps: b.comps, auxs: b.auxs, edges: b.edges, specEdges: specE,
-				fcStart: pl.fcStart, fcStop: pl.fcStop, log: b.w.log, cx: pl.cx, ret: b.w.ret}
+				fcStart: pl.fcStart, fcStop: pl.fcStop, log: b.w.log, cx: pl.cx, ret: b.w.ret, nodeKinds: b.kinds}
 			c.errs = vErrList(errAll)
 			all := append(append([]int{}, b.comps...), b.auxs...)
 			// the order used by StartAll: started components are a suffix (reversed) of it
